@@ -37,6 +37,17 @@ void harness(void) {
   ASSERT(w_bf_word(A, 0) == ma, "bit array == bitwise model (OR / AND / NOT of the operands)");
   ASSERT((int)w_bf_is_empty(A) == (ma == 0), "is_empty iff no bit is set");
   /* no false negatives, in every representation */
+#ifdef QAU_DIRTY   /* query_and_update on a filter whose bit count is still pending (filled by update() only, no get_bits_used() in between) */
+  { uint64_t q = ND_U64(); int before = model_has(ma, q, seed);
+    ASSERT(w_bf_query_and_update(A, q) == before, "query_and_update on a filter with a pending count returns prior presence");
+    ma = model_insert(ma, q, seed);
+    ASSERT(w_bf_word(A, 0) == ma, "bit array == model after query_and_update");
+    ASSERT((int)w_bf_is_empty(A) == (ma == 0), "is_empty iff no bit is set, after query_and_update on a filter with a pending count");
+    for (int i = 0; i < NAU; i++) ASSERT(w_bf_query(A, x[i]) == 1, "no false negative after query_and_update on a filter with a pending count");
+    ASSERT(w_bf_bits_used(A) == popc(ma), "exact count of set bits after query_and_update on a filter with a pending count");
+    w_bf_delete(A); w_bf_delete(B);
+    WITNESS(); return; }
+#endif
 #if defined(WITH_WRAP) && WITH_WRAP == 2   /* filter living in caller memory (initialize_by_size), updated through that writable view, then the SAME memory re-wrapped */
   { static uint64_t mem64[8]; uint8_t* mem = (uint8_t*)mem64;
     void* Wr = w_bf_init_mem(mem, 64, CAPBITS, NH, seed);
